@@ -175,7 +175,7 @@ func (g *gen) typ(depth int, self *Decl) *TE {
 func (g *gen) elem(depth int, self *Decl) *TE {
 	if depth > 0 && g.chance(0.3) {
 		t := g.typ(depth, self)
-		if t.K == "ref" && g.isUnion(t.Name) {
+		if t.K == "ref" && (g.isUnion(t.Name) || t.Name == "SubU") {
 			return g.leaf(false, self)
 		}
 		return t
